@@ -411,11 +411,22 @@ def unit_block(_block):
     tables = {'_PRESSURE_UNITS': cu._PRESSURE_UNITS, '_MOLAR_UNITS': cu._MOLAR_UNITS,
               '_MASS_UNITS': cu._MASS_UNITS, '_VOLUME_UNITS': cu._VOLUME_UNITS}
     for tname, tbl in tables.items():
-        keys = list(tbl) + INVALID
+        # unknown units include the other capitalisations of the supported ones: SI prefixes are case-sensitive (mPa is not MPa,
+        # Mg not mg), so such a spelling names another unit or none -- it is not in the table the property quantifies over
+        supported = list(dict.keys(tbl))
+        variants = []
+        for k in supported:
+            for v in (k.swapcase(), k.upper(), k.lower()):
+                if v not in supported and v not in variants:
+                    variants.append(v)
+        invalid = INVALID + variants[:6]
+        keys = supported + invalid
         for a, b in itertools.product(keys, keys):
+            if a in variants and b in variants:
+                continue
             for sign in (1, -1):
                 cfg_id = f"{tname}:{a}→{b}|sign={sign}"
-                must_refuse = a in INVALID or b in INVALID
+                must_refuse = a in invalid or b in invalid
                 replay = {'kind': 'c01.call', 'func': 'c_unit', 'table': tname,
                           'kwargs': {'unit_from': a, 'unit_to': b, 'sign': sign}, 'must_refuse': must_refuse}
                 holder = {}
